@@ -443,7 +443,7 @@ def action (cfg : Cfg) (file : String) (names : List (String × String)) (predef
     let verr := verify file t
     if !verr.isEmpty then .err (t.errs ++ verr)
     else
-      let errs := t.errs ++ cfgVerify t ++ precVerify t.levels
+      let errs := t.errs ++ sortStr (cfgVerify t) ++ precVerify t.levels      -- the grammar's diagnostics are ordered by their text
       if !errs.isEmpty then .err errs
       else match v 0 with
         | some (.str name) =>
